@@ -56,8 +56,9 @@ theorem pushDefaultK_raised : ∀ (b : B) (k : Nat), Raised ext (positions b) Pl
   | .union p (.cons c m rest) types offs cur, k => by
     unfold pushDefaultK
     refine Raised.ctx_own _ (.default k) subset_refl' (placeholder_default k) (fun msg h => .body h) ?_
-    refine Raised.bind (Raised.monoS ?_ (pushDefaultK_raised c k)) fun _ _ => Raised.of_ok _
-    intro q hq; simp only [positions, positionsL, List.mem_cons, List.mem_append]; exact .inr (.inl hq)
+    refine Raised.ite _ (NoCtx.raised _) ?_
+    refine Raised.bind (Raised.monoS ?_ (pushDefaultKAt_raised (.cons c m rest) _ k)) fun _ _ => Raised.of_ok _
+    simp only [positions]; exact tail_sub'
 theorem pushDefaultKAll_raised : ∀ (fs : BL) (k : Nat), Raised ext (positionsL fs) Placeholder (pushDefaultKAll fs k)
   | .nil, k => by unfold pushDefaultKAll; exact Raised.of_ok _
   | .cons b m rest, k => by
@@ -66,6 +67,16 @@ theorem pushDefaultKAll_raised : ∀ (fs : BL) (k : Nat), Raised ext (positionsL
       Raised.bind (Raised.monoS ?_ (pushDefaultKAll_raised rest k)) fun _ _ => Raised.of_ok _
     · intro q hq; simp only [positionsL, List.mem_append]; exact .inl hq
     · intro q hq; simp only [positionsL, List.mem_append]; exact .inr hq
+theorem pushDefaultKAt_raised : ∀ (fs : BL) (j k : Nat), Raised ext (positionsL fs) Placeholder (pushDefaultKAt fs j k)
+  | .nil, _, _ => by unfold pushDefaultKAt; exact Raised.of_ok _
+  | .cons b m rest, 0, k => by
+    unfold pushDefaultKAt
+    refine Raised.bind (Raised.monoS ?_ (pushDefaultK_raised b k)) fun _ _ => Raised.of_ok _
+    intro q hq; simp only [positionsL, List.mem_append]; exact .inl hq
+  | .cons b m rest, j + 1, k => by
+    unfold pushDefaultKAt
+    refine Raised.bind (Raised.monoS ?_ (pushDefaultKAt_raised rest j k)) fun _ _ => Raised.of_ok _
+    intro q hq; simp only [positionsL, List.mem_append]; exact .inr hq
 end
 
 theorem pushNone_raised : ∀ (b : B), Raised ext (positions b) Placeholder (pushNone b)
@@ -89,8 +100,8 @@ theorem pushNone_raised : ∀ (b : B), Raised ext (positions b) Placeholder (pus
   | .dictionary p idx vals index => by
     unfold pushNone
     refine Raised.ctx_own _ (.val .none) subset_refl' placeholder_none (fun msg h => .body h)
-      (Raised.bind (Raised.ctx_own _ (.val .none) subset_refl' placeholder_none
-        (fun msg h => absurd h (pushNone_never_plain idx msg)) (Raised.monoS ?_ (pushNone_raised idx))) fun _ _ => Raised.of_ok _)
+      (Raised.ite _ (NoCtx.raised _) (Raised.bind (Raised.ctx_own _ (.val .none) subset_refl' placeholder_none
+        (fun msg h => absurd h (pushNone_never_plain idx msg)) (Raised.monoS ?_ (pushNone_raised idx))) fun _ _ => Raised.of_ok _))
     intro q hq; simp only [positions, List.mem_cons, List.mem_append]; exact .inr (.inl hq)
 
 /-! ### struct rows -/
